@@ -453,6 +453,41 @@ def check_branch_rule(ctx):
     ctx.add('branch_rule', ev, nt)
 
 
+# --- limits: zero is a number, not "no limit" --------------------------------------------------------
+
+def check_limits_zero(ctx):
+    """Data with negative and zero values (excess uptake, a drifting baseline): every limit pair over {None, negative, 0, 0.0, positive}."""
+    import pygaps
+    ev = nt = 0
+    pr = [0.0, 0.1, 0.2, 0.4, 0.8, 0.5, 0.2]
+    ld = [-0.3, -0.1, 0.0, 0.4, 1.0, 0.8, -0.05]
+    en = [-2.0, -1.0, 0.0, 1.0, 2.0, 1.0, 0.0]
+    df = pandas.DataFrame({'pressure': pr, 'loading': ld, 'branch': [0, 0, 0, 0, 0, 1, 1], 'enth': en})
+    def mk():
+        return pygaps.PointIsotherm(isotherm_data=df.copy(), pressure_key='pressure', loading_key='loading', material=pygaps.Material('c03-mat', **MAT), adsorbate='N2',
+                                    temperature=T, temperature_unit='K', **dict(zip(UKEYS, BASE)))
+    ends = [None, -0.2, 0, 0.0, 0.45]
+    for lo, hi in itertools.product(ends, ends):
+        if lo is not None and hi is not None and lo > hi:
+            continue
+        for acc, col, kws in (('loading', ld, [({}, 1.0), (dict(loading_unit='mol'), 1e-3)]), ('pressure', pr, [({}, 1.0), (dict(pressure_unit='kPa'), 100.0)]),
+                              ('other_data', en, [({}, 1.0)])):
+            for kw, fac in kws:
+                for br, rows in ((None, range(7)), ('ads', range(5)), ('des', range(5, 7))):
+                    iso = mk()
+                    args = ('enth',) if acc == 'other_data' else ()
+                    o = core.call(getattr(iso, acc), *args, branch=br, limits=(lo, hi), **kw)
+                    vals = [col[i] * fac for i in rows]
+                    want = [v for v in vals if (lo is None or v >= lo) and (hi is None or v <= hi)]
+                    ev += 1
+                    nt += 1
+                    got = list(numpy.asarray(o.value, dtype=float)) if o.ok else None
+                    if got is None or len(got) != len(want) or core.relerr(got, want) > 1e-12:
+                        ctx.violate(_v('limits-with-zero', f'{acc}(branch={br}, limits=({lo!r}, {hi!r}), {kw}) = {got if o.ok else o.brief()[:100]} but the values between the limits are {want}',
+                                       {'accessor': acc, 'limits': [lo, hi]}, want, got, {'accessor': acc, 'zero_end': 'lower' if lo == 0 and lo is not None else ('upper' if hi == 0 and hi is not None else 'none')}))
+    ctx.add('limits_with_zero', ev, nt)
+
+
 # --- interpolation clauses -------------------------------------------------------------------------
 
 def _interp_clauses(ctx, mk, sigx):
@@ -620,6 +655,7 @@ def run(ctx):
         ctx.track('model_vs_reference', r['worst'], 1e-8)
     check_branch_rule(ctx)
     check_interpolation(ctx)
+    check_limits_zero(ctx)
     ctx.cov['domain_sizes'] = {'loading_x_material_reps': len(lreps), 'pressure_reps': len(preps), 'model_reps': len(mq)}
     ctx.cov['rule'] = ('every ordered pair (stored S, requested R) of loading x material representations (quick: unit-class quotient 60x60; thorough '
                        '513x513) and of the 10 pressure representations; for each pair the accessors pressure()/loading() (3 branches, 3 limit '
